@@ -158,6 +158,8 @@ func aggregateWriteOutput(w io.Writer, threshold float64, cSNPs chan snpLine, cE
 
 // SNPs annotates snps for each record in a fasta-format alignment with respect to a reference sequence
 func SNPs(ref, alignment io.Reader, hardGaps bool, aggregate bool, threshold float64, w io.Writer) error {
+	vhook.Begin("snps.SNPs", runtime.NumCPU())
+	defer vhook.End("snps.SNPs")
 
 	cErr := make(chan error)
 
